@@ -13,6 +13,7 @@
 //!                     by `.`; prints `<code>:<markers>` per op.
 //!   `thunkeq`         compares two thunk values with `==` (known to recurse without bound);
 //!                     run in a child process by the check.
+//!   `dropchain N KIB` drops a chain of N thunks on a thread with a KIB stack (Drop recurses per link).
 //! With feature `h7` (hook H7 present in /repo) reference counts are printed exactly.
 use nickel_lang_core::{
     environment::Environment as GenEnv,
@@ -1226,6 +1227,26 @@ fn main() {
         };
         let (a, b) = (mk(), mk());
         println!("{}", a == b);
+        return;
+    }
+    if mode == "dropchain" {
+        // a chain of n thunks, each one holding the previous one in its environment, dropped on a
+        // thread with the given stack size (KiB): Drop for ValueBlockRc recurses once per link
+        let n: usize = std::env::args().nth(2).and_then(|a| a.parse().ok()).unwrap_or(100_000);
+        let kib: usize = std::env::args().nth(3).and_then(|a| a.parse().ok()).unwrap_or(8192);
+        let h = std::thread::Builder::new()
+            .stack_size(kib * 1024)
+            .spawn(move || {
+                let mut t = Thunk::new(Closure { value: NickelValue::null(), env: GenEnv::new() }, PosIdx::NONE);
+                for _ in 0..n {
+                    let env = GenEnv::from_iter([(Ident::from("prev"), t)]);
+                    t = Thunk::new(Closure { value: NickelValue::null(), env }, PosIdx::NONE);
+                }
+                drop(t)
+            })
+            .unwrap();
+        h.join().unwrap();
+        println!("dropped {n}");
         return;
     }
     let stdin = std::io::stdin();
